@@ -110,7 +110,7 @@ def confirm(v):
     return False, out
 
 
-def validate(prog, rng, n):
+def validate(prog, rng, n, rep=None):
     cases = []
     for i in range(n):
         fn = rng.choice(FNS)
@@ -122,6 +122,16 @@ def validate(prog, rng, n):
     mism = []
     S.DIGIT_BOUND[0] = 40
     for (fn, x, sc), nat in zip(cases, outs):
+        if rep is not None and '\x1f' in nat:
+            text, parsed = nat.split('\x1f')
+            bad = parsed == 'ERR'
+            if not bad:
+                pi, ps = H.parse_dec(parsed)
+                M = max(ps, sc)
+                bad = pi * 10 ** (M - ps) != x * 10 ** (M - sc)
+            if bad:
+                H.probe_violation(rep, PROP, 'native %s of %d@%d prints %r which parses back as %s' % (fn, x, sc, text, parsed), {'fn': fn, 'L': len(str(abs(x))), 'slo': sc, 'shi': sc, 'cfg': {}}, {'n': abs(x), 'scale': sc, 'neg': x < 0}, nat)
+                continue
         m = E.Machine(prog, (), [], E.Stats(), loop_bound=4000)
         try:
             out, ok = render(m, fn, x, sc)
@@ -155,7 +165,7 @@ def main(tier):
                        'i128::from_str / BigInt::from_str_radix acceptance rules (std / num-bigint 0.4) as summarised in DESIGN 2.4']
     rep.outside = ['more than D digits', 'to_plain_string beyond |scale| 60 (materialises zeros)', '|scale| > 10^15 (observation: to_engineering_notation of d@(i64::MAX) prints d00e-9223372036854775809, which the parser rejects with an exponent overflow; outside the property scope)']
     sys.stderr.write('[C04] %d tasks\n' % len(tasks))
-    rep.validated, rep.validation_mismatches = validate(prog, rng, 300 if tier == 'quick' else 3000)
+    rep.validated, rep.validation_mismatches = validate(prog, rng, 300 if tier == 'quick' else 3000, rep)
     results = H.run_parallel(tasks, worker, progress=100)
     rep.add(results)
     for r in results:
